@@ -272,7 +272,7 @@ func doCall(fn string, args []int, ctx ...interface{}) *CallRec {
 	}
 	for _, n := range midiAccNames {
 		if _, ok := r.Acc[n]; !ok {
-			r.Acc[n] = accRes{Out: []int{}}
+			r.Acc[n] = accRes{Out: []int{}, Single: []int{}}
 		}
 	}
 	return r
